@@ -54,8 +54,12 @@ impl MemoHeader {
         // A value assigned through `specify` carries the stamp of the query that assigned it,
         // not of the inputs read by this query's own body, so it may legitimately be newer than
         // the stamp of a later execution of the body that computes an equal value.
+        //
+        // Likewise, a memo that took part in a cycle is never backdated, so its stamp is only
+        // an upper bound: once the cycle is gone, an equal value may carry an older stamp.
         if self.revisions.changed_at > revisions.changed_at
             && !matches!(self.origin(), QueryOriginRef::Assigned(_))
+            && !self.was_cycle_participant()
         {
             report_backdate_violation(index, self.revisions.changed_at, revisions.changed_at);
         }
